@@ -1,0 +1,28 @@
+//go:build verif
+
+package vm
+
+// C03: lock balance of the VM's two mutexes. An Unlock of a mutex that is not locked is a runtime throw no recover
+// catches; a second Lock by the goroutine that holds it never returns. Every function of the package that calls a
+// method of a sync mutex is listed here and is a unit whose Lock / Unlock calls are checked against the ghost lock
+// state (contracts of package sync: contracts/object/contracts_c05_verif.go). Not checked: loadCode - its body is
+// encoded for two C14 clauses only (`trusted except`), its Lock / defer Unlock pair on cloneMutex is straight-line.
+//@ scan[C03.locks.vm] C03 extcalls sync.(*Mutex).Lock,sync.(*Mutex).Unlock,sync.(*Mutex).TryLock,sync.(*RWMutex).Lock,sync.(*RWMutex).Unlock,sync.(*RWMutex).RLock,sync.(*RWMutex).RUnlock: (*VirtualMachine).Clone (*VirtualMachine).SetIP (*VirtualMachine).TOS (*VirtualMachine).applyOptions (*VirtualMachine).importModule (*VirtualMachine).loadCode (*VirtualMachine).start (*VirtualMachine).stop
+
+//@ func (*VirtualMachine).stop
+//@ props C03
+//@ requires vm != nil
+//@ requires[C03.unlocked] !ghost("lock.w", bool, &vm.runMutex)
+//@ ensures[C03.lock.released] !ghost("lock.w", bool, &vm.runMutex)
+
+//@ func (*VirtualMachine).SetIP
+//@ props C03
+//@ requires vm != nil
+//@ requires[C03.unlocked] !ghost("lock.w", bool, &vm.runMutex)
+//@ ensures[C03.lock.released] !ghost("lock.w", bool, &vm.runMutex)
+
+//@ func (*VirtualMachine).TOS
+//@ props C03
+//@ requires vm != nil
+//@ requires[C03.unlocked] !ghost("lock.w", bool, &vm.runMutex)
+//@ ensures[C03.lock.released] !ghost("lock.w", bool, &vm.runMutex)
